@@ -135,8 +135,22 @@ def amount_from_first_line(ctx, res, rule):
             ok = False
             why.append("`%s` does not measure exactly one line" % fshort(cb))
     else:
-        ok = False
-        why.append("first-line indentation is `%s`, not a measurement of the line behind the seam" % T.render(first_d)[:80])
+        # the measurement written in place: an expression without loops whose only scans are one backward line-break scan and
+        # one first-non-blank scan, and whose free locals are the text, its bytes and the first-line start (seam + 1)
+        calls = [T.short_path(T.callee(n) or "").split("::")[-1] for n in T.nodes(first_d, "call") if (T.callee(n) or "") in P.bodies]
+        bound_inside = {x["id"] for c_ in T.nodes(first_d, "closure") for p_ in c_["params"] for x in T.pat_nodes(p_["pat"]) if x.get("p") == "bind"}
+        free = []
+        for n in T.nodes(first_d, "path"):
+            lid = T.local_of(n)
+            if lid is not None and lid not in bound_inside:
+                free.append(T.render(resolve(n)))
+        extra = [a for a in free if a not in {cn, "(%s + 1)" % sn, "%s.as_bytes()" % cn} | byte_views]
+        if sorted(calls) != ["find_next_char_pos", "find_prev_line_break_pos"] or any(n.get("k") in ("loop", "for") for n in T.nodes(first_d)):
+            ok = False
+            why.append("first-line indentation is `%s`, not a measurement of the line behind the seam" % T.render(first_d)[:80])
+        elif extra:
+            ok = False
+            why.append("the first-line indentation is computed from %s (it must depend on the first inner line only, i.e. on content and %s + 1)" % (sorted(set(extra)), sn))
     if True:
         tr = T.render(ofs_d)
         calls_ok = any(("find_prev_line_break_pos(%s, %s, %s, true)" % (cn, bv, sn)) in tr for bv in byte_views | {"%s.as_bytes()" % cn})
